@@ -12,6 +12,8 @@ pub const LEXEMES: &[&str] = &[
     "give", "back", "&", "'n'", ",", ".", "\n",
     // comments, multi-line tokens, error tokens
     "(c)", "(a\nb)", "\"a\nb\"", "a1", "_", "\"u", "(u", "€", "x€", "“x”", "İx's",
+    // a keyword or pronoun glued to a suffix
+    "listen's", "say're", "it's",
 ];
 
 pub fn join(lexemes: &[&str]) -> String {
